@@ -66,6 +66,19 @@ func clip(s string, n int) string {
 // cannot classify the residues (never expected with the generated mixes).
 func mkSource(rows gen.Rows) (align.Alignment, bool) {
 	al := h.MkAlignAuto(rows)
+	a0 := al.Alphabet()
+	if len(rows) > 0 && (len(rows)+len(rows[0].Seq))%5 == 2 && (a0 == align.NUCLEOTIDS || a0 == align.AMINOACIDS) {
+		// one source in five was asked for the other alphabet first: a request the content does not allow is refused
+		// and leaves the alignment as it was (the writers of Nexus and Clustal spell the alphabet out); a request
+		// the content allows is taken back
+		other := align.NUCLEOTIDS
+		if a0 == align.NUCLEOTIDS {
+			other = align.AMINOACIDS
+		}
+		if err := al.SetAlphabet(other); err == nil {
+			al.SetAlphabet(a0)
+		}
+	}
 	return al, al.Alphabet() == align.NUCLEOTIDS || al.Alphabet() == align.AMINOACIDS
 }
 
